@@ -174,7 +174,7 @@ func c03Compare(c *mon.Ctx, s *model.Schema, sp lib.Spec, built *builtSchema, v 
 	if want == model.Unspec {
 		c.Count("oracle unspecified (not compared)", 1)
 		if obs.Panic != "" {
-			c.Violate("validate", c03Case{sp, doc}, "no panic", obs.String(), "Validate panicked")
+			c.Violate("vpanic", c03Case{sp, doc}, "no panic", obs.String(), "Validate panicked")
 		}
 		return
 	}
@@ -209,6 +209,11 @@ func init() {
 				var cs c03Case
 				json.Unmarshal(raw, &cs)
 				return lib.Validate(cs.Spec, cs.Doc).Verdict()
+			},
+			"vpanic": func(raw json.RawMessage) string {
+				var cs c03Case
+				json.Unmarshal(raw, &cs)
+				return noPanic(lib.Validate(cs.Spec, cs.Doc))
 			},
 			"check": func(raw json.RawMessage) string {
 				var cs c03Case
